@@ -49,6 +49,7 @@ def validated_signs(sx: SX, cls: str):
             if isnone:
                 continue
             k = None
+            nonzero = False
             for g in o.state.guards:
                 if g.kind != 'cmp':
                     continue
@@ -61,6 +62,10 @@ def validated_signs(sx: SX, cls: str):
                     k = 'pos'
                 elif not positive_coeff and rel == '<=' and k is None:
                     k = 'nonneg'
+                elif rel == '!=':
+                    nonzero = True
+            if k == 'nonneg' and nonzero:
+                k = 'pos'           # p >= 0 and p != 0 (a validation written as `< 0 or (== 0 and strict)`)
             kinds.append(k)
         if kinds and all(k == 'pos' for k in kinds):
             facts[p] = 'pos'
